@@ -11,8 +11,11 @@ def write(prop, tier, seed, level, coverage, assumptions, wall_s, violations, ex
         'violations': violations,
     }
     if extra: ev.update(extra)
-    os.makedirs(os.path.join(VERIF, 'evidence'), exist_ok=True)
-    path = os.path.join(VERIF, 'evidence', prop + '.json')
+    # VERIF_EVIDENCE_DIR: development runs on a deliberately broken /repo (tools/seed.py detect) write their
+    # evidence to a scratch directory, so evidence/ only ever holds records of runs on the tree as it is
+    edir = os.environ.get('VERIF_EVIDENCE_DIR') or os.path.join(VERIF, 'evidence')
+    os.makedirs(edir, exist_ok=True)
+    path = os.path.join(edir, prop + '.json')
     tmp = path + '.tmp'
     with open(tmp, 'w') as f:
         json.dump(ev, f, indent=1, ensure_ascii=False)
